@@ -44,7 +44,8 @@ TIERS = {
 REQUIRED_PROBES = {"quick": ["observer_before_last_mutation", "raw_value_object_with_params", "repeated_name",
                              "caseless_duplicate_name", "permutation_moved_something", "amz_in_history",
                              "amz_added_two_or_more", "subtree_from_ical", "zoned_dateutil", "zoned_pytz",
-                             "zoned_zoneinfo", "list_valued_parameter", "setter_barrier", "noise_parse"]}
+                             "zoned_zoneinfo", "list_valued_parameter", "setter_barrier", "noise_parse", "noise_serialise",
+                             "mixed_zone_list"]}
 REQUIRED_PROBES["thorough"] = REQUIRED_PROBES["quick"]
 
 KINDS = ["VEVENT", "VTODO", "VJOURNAL", "VFREEBUSY", "VTIMEZONE", "VALARM", "X-COMP"]
@@ -117,6 +118,11 @@ def gen_value(rng, name, marker):
         n = rng.randint(1, 3)
         if rng.random() < 0.2:
             return "datelist", ["list", [_date(rng) for _ in range(n)]]
+        if rng.random() < 0.3:
+            # entries from several zones in one list (the TZID written is the library's choice, but it must be
+            # the same choice in every process)
+            n = rng.randint(2, 4)
+            return "dtlist:mixed", ["list", [_dt(rng, rng.choice(ZONES)) for _ in range(n)]]
         return "dtlist:" + _zk(["dt", 0, 0, 0, 0, 0, 0, z]), ["list", [_dt(rng, z) for _ in range(n)]]
     if u == "CATEGORIES":
         return "categories", ["list", [["s", rng.choice(["A", "b,c", "Ünï", "d;e"])] for _ in range(rng.randint(1, 3))]]
@@ -228,7 +234,13 @@ def generate(rng, cfg):
             used_amz = True
             continue
         if r < 0.31 and swarm["noise"]:
-            trace.append([1, "noise_parse", {"text": rng.choice(NOISE_TEXTS)}])
+            if rng.random() < 0.5:
+                trace.append([1, "noise_parse", {"text": rng.choice(NOISE_TEXTS)}])
+            else:
+                # another client of the same process serialises a tree of its own
+                trace.append([1, "noise_serialise", {"kind": rng.choice(["X-COMP", "VEVENT", "VTIMEZONE", "VCALENDAR",
+                                                                          "VTODO", "VALARM"]),
+                                                     "sorted": rng.random() < 0.8}])
             continue
         if r < 0.40:
             c = rng.choice(sorted(comps))
@@ -411,7 +423,7 @@ def run_variant(trace, res, with_observers, tag, stepbase=0, checks=True):
     klass = {"VCALENDAR": C.Calendar, "VEVENT": C.Event, "VTODO": C.Todo, "VJOURNAL": C.Journal,
              "VFREEBUSY": C.FreeBusy, "VTIMEZONE": C.Timezone, "STANDARD": C.TimezoneStandard,
              "DAYLIGHT": C.TimezoneDaylight, "VALARM": C.Alarm}
-    last_mutation = max([i for i, s in enumerate(trace) if s[1] not in ("observe", "noise_parse")] or [0])
+    last_mutation = max([i for i, s in enumerate(trace) if s[1] not in ("observe", "noise_parse", "noise_serialise")] or [0])
     for stepno, (c, op, a) in enumerate(trace):
         if checks:
             res.steps += 1
@@ -476,6 +488,8 @@ def run_variant(trace, res, with_observers, tag, stepbase=0, checks=True):
                         res.probe("caseless_duplicate_name")
                     vk = a["vk"]
                     res.states.add(f"cov:{op}:{vk}:{'raw' if a.get('raw') else 'api'}")
+                    if vk == "dtlist:mixed":
+                        res.probe("mixed_zone_list")
                     for z in ("du", "pytz", "zi"):
                         if vk.endswith(":" + z):
                             res.probe({"du": "zoned_dateutil", "pytz": "zoned_pytz", "zi": "zoned_zoneinfo"}[z])
@@ -521,6 +535,17 @@ def run_variant(trace, res, with_observers, tag, stepbase=0, checks=True):
                     res.probe("amz_in_history")
                     if added >= 2:
                         res.probe("amz_added_two_or_more")
+            elif op == "noise_serialise":
+                k = klass.get(a["kind"])
+                other = k() if k else C.Component()
+                if not k:
+                    other.name = a["kind"]
+                other.add("summary", "noise")
+                other.add("x-noise", "1")
+                other.add("dtstart", to_py(["dt", 2020, 1, 1, 0, 0, 0, ["zi", "Europe/Berlin"]]))
+                other.to_ical(sorted=a["sorted"])
+                if checks:
+                    res.probe("noise_serialise")
             elif op == "noise_parse":
                 try:
                     C.Calendar.from_ical(a["text"])
